@@ -125,6 +125,9 @@ class CallMixin:
                 return T.scalar(T.STR, fresh("fmt", T.StrS))
             if isinstance(f.value, ast.Name) and f.value.id == "copy" and f.attr == "deepcopy" and "copy" not in p.env:
                 return self.deepcopy(e, p)
+            if f.attr == "choice" and isinstance(f.value, ast.Attribute) and f.value.attr in ("_rng", "rng") \
+                    or (f.attr == "choice" and isinstance(f.value, ast.Name) and f.value.id in ("rng", "_rng")):
+                return self.rng_choice(e, p)
             lib = self.library_call(f, e, p)
             if lib is not None:
                 return lib
@@ -168,6 +171,24 @@ class CallMixin:
             self._assume(p, z3.And(r >= 0, r < 1))
             return T.sv_real(r)
         return None
+
+    def rng_choice(self, e, p):
+        """Generator.choice(population_list, size=k, replace=False): k distinct positions of the list, i.e. a sub-bag of size k
+        (ValueError when k exceeds the population). Assumed contract of numpy; the result is otherwise havoc."""
+        kw = {k.arg: k.value for k in e.keywords}
+        if len(e.args) != 1 or "size" not in kw or not (isinstance(kw.get("replace"), ast.Constant) and kw["replace"].value is False):
+            raise Unsupported("rng.choice in a form other than choice(list, size=k, replace=False)")
+        pop = self.ev(e.args[0], p)
+        if not isinstance(pop.ty, T.Bag):
+            raise Unsupported(f"rng.choice over {pop.ty}")
+        k = self.coerce(self.ev(kw["size"], p), T.INT).t
+        bt = pop.ty
+        self._raise_if(p, z3.Or(k < 0, k > bt.blen()(pop.t)), "ValueError", f"line {e.lineno}")
+        r = fresh("choice", bt.sort())
+        x = fresh("x", bt.e.sort())
+        self._assume(p, z3.ForAll([x], z3.And(0 <= r[x], r[x] <= pop.t[x]), patterns=[r[x]]))
+        self._assume(p, bt.blen()(r) == k)
+        return T.scalar(bt, r)
 
     # ---- built-ins
     def _one(self, e, p):
@@ -228,7 +249,7 @@ class CallMixin:
             return T.scalar(st, s)
         if isinstance(v.ty, T.Bag):
             st = T.Set(v.ty.e)
-            s = fresh("setofbag", st.sort())
+            s = TH.supp_fn(v.ty.e)(v.t)      # set(list): the support (axioms supp_def, bag01_len)
             x = fresh("x", v.ty.e.sort())
             self._assume(p, z3.ForAll([x], s[x] == (v.t[x] >= 1), patterns=[s[x], v.t[x]]))
             self._assume(p, st.card()(s) <= v.ty.blen()(v.t))
